@@ -153,6 +153,7 @@ type State struct {
 	nameCnt  map[string]int
 	concPos  int
 
+	mapIters map[uint64]*mapIterState
 	pools   map[uint64][]Value // sync.Pool contents under POOLREUSE
 	tables  map[int]*tableSummary // verified table formulas by object id
 	lenient bool // init mode: unknown calls poison instead of aborting
